@@ -379,7 +379,7 @@ pub fn run(tier: Tier) -> i32 {
     rep.transitions = edges + rep.acc.get("matrix_texts") + rep.acc.get("renderings");
     rep.traces = rep.acc.get("executions");
     rep.rule = "E3: depth-first exploration of the trie of token sequences over 26 token classes (every sequence up to the unpruned depth; beyond it every sentence, viable prefix and viable prefix + one dead token, classified by an incremental Earley recogniser over the declarative grammar); each node parsed by the real parser and compared on accept/reject, error position and tree; plus operator pair/triple matrices and trees under every subset of redundant parentheses".into();
-    rep.assume("error positions are read from lalrpop's message text; an unknown message shape is a machinery error");
+    rep.assume("error positions are read from lalrpop's message text; a message of unknown shape counts as a rejection whose position is not compared");
     rep.assume("identifier and literal spelling is C08's business: one representative per token class here");
     rep.finish()
 }
